@@ -28,6 +28,7 @@ type c08Msg struct {
 	Variant  ref.DeflateVariant
 	Frags    int
 	SetLimit int64 // limit set before reading this message (c08Default = leave)
+	Late     bool  // the limit is set from another goroutine while the Read for this message is already waiting
 }
 
 type c08Huge struct {
@@ -48,7 +49,7 @@ type c08Case struct {
 func (c c08Case) String() string {
 	s := fmt.Sprintf("{mode=%s api=%s buf=%d chunk=%d msgs=[", c.Mode.Name, c.API, c.Buf, c.Chunk)
 	for _, m := range c.Msgs {
-		s += fmt.Sprintf("{size=%d kind=%d comp=%v/%v frags=%d setlimit=%d}", m.Size, m.Kind, m.Compress, m.Variant, m.Frags, m.SetLimit)
+		s += fmt.Sprintf("{size=%d kind=%d comp=%v/%v frags=%d setlimit=%d late=%v}", m.Size, m.Kind, m.Compress, m.Variant, m.Frags, m.SetLimit, m.Late)
 	}
 	s += "]"
 	if c.Huge != nil {
@@ -110,6 +111,7 @@ func genC08(rt *rapid.T) c08Case {
 			m.Variant = ref.DeflateVariant(rapid.IntRange(0, int(ref.NumDeflateVariants)-1).Draw(rt, "variant"))
 		}
 		m.Frags = rapid.IntRange(1, 4).Draw(rt, "frags")
+		m.Late = m.SetLimit != c08Default && c.API != "netconn" && rapid.IntRange(0, 2).Draw(rt, "late") == 0
 		c.Msgs = append(c.Msgs, m)
 	}
 	if rapid.IntRange(0, 4).Draw(rt, "huge") == 0 && c.API != "wsjson" {
@@ -152,6 +154,7 @@ func runC08(t fataler, c c08Case) (string, c08Result) {
 	// build the stream up front
 	var frames []ref.Frame
 	payloads := make([][]byte, len(c.Msgs))
+	msgEnd := make([]int, len(c.Msgs)) // number of frames up to and including message i
 	for i, m := range c.Msgs {
 		p := c08Payload(m, i)
 		payloads[i] = p
@@ -179,8 +182,13 @@ func runC08(t fataler, c c08Case) (string, c08Result) {
 			frames = append(frames, f)
 			off = end
 		}
+		msgEnd[i] = len(frames)
 	}
-	_, stream, _ := finishMasking(frames, c.Mode.Client)
+	_, stream, frameEnds := finishMasking(frames, c.Mode.Client)
+	late := false
+	for _, m := range c.Msgs {
+		late = late || m.Late
+	}
 	if c.Huge != nil {
 		hf := ref.Frame{Fin: true, Opcode: ref.OpBinary, Payload: expand(ckPattern, 99, c.Huge.Trickle), DeclaredLen: &c.Huge.Declared}
 		hs, hstream, _ := finishMasking([]ref.Frame{hf}, c.Mode.Client)
@@ -191,8 +199,39 @@ func runC08(t fataler, c c08Case) (string, c08Result) {
 	if c.Chunk > 0 {
 		lc.End.SetPeerMaxRead(c.Chunk)
 	}
-	lc.End.Write(stream)
-	if c.Huge == nil || c.Huge.End == "eof" {
+	ready := make([]chan struct{}, len(c.Msgs))
+	for i := range ready {
+		ready[i] = make(chan struct{})
+	}
+	if !late {
+		lc.End.Write(stream)
+	} else {
+		// message by message: a "late" limit is set while the reader already waits for the message
+		e.Go(func() {
+			prev := 0
+			for i, m := range c.Msgs {
+				select {
+				case <-ready[i]:
+				case <-e.done:
+					return
+				}
+				if m.Late {
+					synctest.Wait() // the Read for message i is blocked, waiting for its first frame
+					lc.C.SetReadLimit(m.SetLimit)
+				}
+				end := frameEnds[msgEnd[i]-1]
+				lc.End.Write(stream[prev:end])
+				prev = end
+			}
+			lc.End.Write(stream[prev:])
+			if c.Huge == nil || c.Huge.End == "eof" || e.sleep(30*time.Second) {
+				lc.End.CloseWrite(nil)
+			}
+		})
+	}
+	if late {
+		// the feeder ends the stream itself
+	} else if c.Huge == nil || c.Huge.End == "eof" {
 		lc.End.CloseWrite(nil)
 	} else {
 		e.Go(func() {
@@ -273,8 +312,12 @@ func runC08(t fataler, c c08Case) (string, c08Result) {
 			if i < len(payloads) {
 				want = payloads[i]
 			}
-			if setLimit != c08Default {
+			lateSet := i < len(c.Msgs) && c.Msgs[i].Late
+			if setLimit != c08Default && !lateSet {
 				conn.SetReadLimit(setLimit)
+			}
+			if i < len(ready) {
+				close(ready[i])
 			}
 			switch c.API {
 			case "reader":
@@ -434,7 +477,12 @@ func runC08(t fataler, c c08Case) (string, c08Result) {
 	}
 	res.Delivered = delivered
 	// memory envelope
-	const flat = 6 << 20
+	flat := uint64(6 << 20)
+	if late {
+		// in message-by-message mode the harness itself copies the stream into the
+		// transport inside the measured window
+		flat += uint64(6*len(stream)) + 1<<20
+	}
 	switch c.API {
 	case "reader", "netconn":
 		if res.AllocDelta > flat {
